@@ -84,6 +84,11 @@ func main() {
 		c.Floor("reload_points_changed_within_same_second", n/100, c.Counter("reload_points_changed_within_same_second"))
 		c.Floor("sampler_observations_overlapping_the_call", 20, c.Counter("sampler_size_probes_overlapping_the_call")+c.Counter("sampler_reads_overlapping_the_call"))
 		c.Floor("stress_runs", 1, c.Counter("stress_runs"))
+		c.Floor("reload_points_changed_with_older_mtime", n/30, c.Counter("reload_points_changed_with_older_mtime"))
+		c.Floor("final_edits_with_older_mtime", n/60, c.Counter("final_edits_with_older_mtime"))
+		c.Floor("reload_points_changed_with_equal_mtime", n/100, c.Counter("reload_points_changed_with_equal_mtime"))
+		c.Floor("snapshot_calls", 50, c.Counter("snapshot_calls"))
+		c.Floor("snapshot_calls_overlapping_a_reload", 10, c.Counter("snapshot_calls_overlapping_a_reload"))
 	}
 	cleanTmp()
 	c.Finish()
